@@ -169,6 +169,9 @@ impl Vm {
                 &res,
             );
 
+            #[cfg(essential_base_verif)]
+            crate::verif::notify(self, &op, gas_spent, res.is_err());
+
             // Handle the result of the operation.
             let update = match res {
                 Ok(update) => update,
